@@ -234,7 +234,25 @@ func (c *c10ctx) ruleR1() {
 			if _, isGo := in.(*ssa.Go); isGo {
 				return false
 			}
-			return c.allImpls(in, func(f *ssa.Function) bool { return c.stateStores(f)[v] })
+			if c.allImpls(in, func(f *ssa.Function) bool { return c.stateStores(f)[v] }) {
+				return true
+			}
+			// a closure of the start function itself (deferred clean-up): look at the calls it makes
+			for _, cal := range p.callees(in) {
+				if cal.Parent() != fn {
+					continue
+				}
+				found := false
+				Instrs(cal, func(x ssa.Instruction) {
+					if CallOf(x) != nil && c.allImpls(x, func(f *ssa.Function) bool { return c.stateStores(f)[v] }) {
+						found = true
+					}
+				})
+				if found {
+					return true
+				}
+			}
+			return false
 		}
 	}
 	var first ssa.Instruction
@@ -255,7 +273,7 @@ func (c *c10ctx) ruleR1() {
 		if !ok || len(ret.Results) == 0 {
 			return false
 		}
-		res := ret.Results[len(ret.Results)-1]
+		res := returnedValue(ret, len(ret.Results)-1) // named results are spilled when the function defers
 		if cst, isC := res.(*ssa.Const); isC && cst.Value == nil {
 			return false
 		}
